@@ -102,7 +102,28 @@ pub fn run(ctx: &mut Ctx) {
         } else if !ok {
             acc.fail("C18:now-constructors:real-clock-is-not-the-local-clock", 0, || (format!("TZ=JST-9, no clock override: Date::now / Timestamp::now / OracleDate::now / Timestamp::try_from(Time) / OracleDate::try_from(Time) / parse default; local clock between {before} and {after}"), format!("values inside [{b}, {a}] µs (local wall clock)"), format!("{got:?}"), String::new()));
         }
-        ctx.absorb_external("real_local_clock_canary", "the six clock reads against chrono::Local under TZ=JST-9 (no override)", acc);
+        // the zone may change while the process lives (DST, TZ): switch to UTC-11 (a different local DATE),
+        // let chrono's once-per-second zone refresh pass, and compare again
+        std::env::set_var("TZ", "XYZ11");
+        std::thread::sleep(std::time::Duration::from_millis(1300));
+        let before2 = chrono::Local::now().naive_local();
+        let got2 = guard(|| (Date::now().map(|d| d.days() as i64), Timestamp::now().map(|t| t.usecs()), OracleDate::now().map(|t| t.usecs()),
+            Timestamp::try_from(Time::ZERO).map(|t| t.usecs()), OracleDate::try_from(Time::ZERO).map(|t| t.usecs()), TV::parse(Ty::Timestamp, "", "")));
+        let after2 = chrono::Local::now().naive_local();
+        let (b2, a2) = (us_of(&before2), us_of(&after2));
+        let switched = (b2 - b).abs() > 10 * US_HOUR;
+        let ok2 = match &got2 {
+            Ok((Ok(d), Ok(ts), Ok(od), Ok(t1), Ok(t2), Ok(p))) => (day(b2)..=day(a2)).contains(d) && (b2..=a2).contains(ts) && (b2 / US_SEC * US_SEC..=a2).contains(od) && (day(b2)..=day(a2)).contains(&day(*t1)) && (day(b2)..=day(a2)).contains(&day(*t2)) && (*p == month_start(&before2) || *p == month_start(&after2)),
+            _ => false,
+        };
+        acc.t(6);
+        if !switched {
+            ctx.machinery_failure(format!("time-zone canary: chrono::Local did not follow the change to TZ=XYZ11 (local {before2})"));
+        } else if !ok2 {
+            acc.fail("C18:now-constructors:real-clock-is-not-the-local-clock-after-a-zone-change", 1, || (format!("TZ changed from JST-9 to XYZ11 inside the process; local clock between {before2} and {after2}"), format!("values inside [{b2}, {a2}] µs"), format!("{got2:?}"), String::new()));
+        }
+        std::env::set_var("TZ", "JST-9");
+        ctx.absorb_external("real_local_clock_canary", "the six clock reads against chrono::Local under TZ=JST-9 and again after a change to TZ=XYZ11 (no override)", acc);
     }
 
     // ownership canary: without an override the crate reads the real clock
